@@ -44,3 +44,5 @@ a2 = L("401000","mov","%rsi,%rbx")+L("401003","mov","%si,%cx")
 tr("G4b indreg then .16 vs %si expect match", lambda: run("pattern:\n  - mov:\n      - '&indreg.64'\n  - mov:\n      - '&indreg.16'\n", a2))
 a3 = L("401000","mov","%rax,%rbx")+L("401003","mov","0x8(%rax),%rcx")
 tr("G4b genreg in deref expect match", lambda: run("pattern:\n  - mov:\n      - '&genreg.64'\n  - mov:\n      - $deref:\n          main_reg: '&genreg.64'\n          constant_offset: 0x8\n", a3))
+a4 = L("401000","mov","0x8(%rax),%rbx")+L("401003","mov","%rax,$0x8")
+tr("G3 deref capture order (offset written first) expect match", lambda: run("pattern:\n  - mov:\n      - $deref:\n          constant_offset: '&k'\n          main_reg: '&r'\n  - mov:\n      - '&r'\n      - '&k'\n", a4))
